@@ -65,6 +65,8 @@ def to_model(case, obs):
                                             "; ".join("[%s]" % "; ".join(str(p) for p in used) for used in case["script"]))
         return term, [], []
     evs, probes, problems = [], [], []
+    if case["cfg"].get("oracle_only"):
+        return "nrun_enc [] []", [], []
     steps = obs.get("steps", [])
     for i, cmd in enumerate(case["script"]):
         o = steps[i] if i < len(steps) else {}
@@ -499,6 +501,66 @@ def gen_passive_close(rng, variant=None):
     script += [["close", 0], ["pump"], ["listen", 0, la, port], ["close", 5], ["listen", 0, sip, port], ["close", 6],
                ["listen", 0, "0.0.0.0", port], ["recv_all"]]
     return {"mode": "net", "cfg": {"hosts": hosts}, "script": script, "flavour": "passive-close"}
+
+
+def gen_addr_order(rng):
+    """multi-address hosts whose address lists are descending, mixed-family or shuffled: every own
+    address must be bindable, and datagrams / connects to each own address fold back into the host"""
+    pools = [["10.0.0.3", "10.0.0.2", "10.0.0.1"], ["fd00::1:2", "10.0.0.9", "fd00::1:1", "10.0.0.4"],
+             ["192.168.5.1", "10.0.0.7", "172.16.0.1", "10.0.0.5"], ["fd00::1:9", "fd00::1:3", "10.0.0.8"]]
+    a0 = list(rng.choice(pools))
+    if rng.random() < 0.5:
+        rng.shuffle(a0)
+    else:
+        a0.sort(key=lambda x: (":" not in x, [int(b, 16) if ":" in x else int(b) for b in x.replace("::", ":0:").replace(":", ".").split(".")]), reverse=True)
+    hosts = [a0, ["10.0.1.2", "10.0.1.1"]]
+    script = []
+    port = rng.choice([5000, 6000])
+    nh = 0
+    for i, a in enumerate(a0):
+        script.append(["bind_udp", 0, a, port])
+        script.append(["listen", 0, a, port])
+        nh += 2
+    for a in hosts[1]:
+        script.append(["bind_udp", 1, a, port])
+        nh += 1
+    tag = 100
+    for i, a in enumerate(a0):                       # from the first socket of the matching family to every own address
+        src = next(2 * j for j, b in enumerate(a0) if (":" in b) == (":" in a))
+        tag += 1
+        script.append(["send_to", src, [a, port], tag])
+    script += [["send_to", 2 * len(a0), ["10.0.1.2", port], 199], ["pump"], ["recv_all"]]
+    for a in a0:
+        script += [["connect", 0, [a, port]], ["pump"], ["poll", nh], ["accept", 1 + 2 * a0.index(a)]]
+        nh += 2
+    script += [["connect", 1, [a0[-1], port]], ["pump"], ["poll", nh], ["recv_all"]]
+    return {"mode": "net", "cfg": {"hosts": hosts}, "script": script, "flavour": "addr-order"}
+
+
+def gen_port_spaces(rng):
+    """ephemeral port spaces are per (family, type): occupy a small window after the cursor with UDP/v4
+    sockets, then TCP :0 and v6 :0 binds must still be handed exactly those port numbers"""
+    hosts = [["10.0.0.1", "fd00::1:1"], ["10.0.1.1"]]
+    cur = rng.choice([49152, 50000, 65533, 65535])
+    w = rng.randrange(2, 6)
+    eph = lambda k: 49152 + (cur - 49152 + k) % 16384
+    script = [["set_cursor", 0, cur]]
+    occ = rng.choice([("bind_udp", ["0.0.0.0", "10.0.0.1", "127.0.0.1"]), ("listen", ["0.0.0.0", "10.0.0.1"]), ("bind_udp", ["::", "fd00::1:1"])])
+    for k in range(w):
+        script.append([occ[0], 0, rng.choice(occ[1]), eph(k) if rng.random() < 0.5 else 0])
+    script.append(["set_cursor", 0, cur])
+    others = [("listen", "0.0.0.0"), ("listen", "10.0.0.1"), ("bind_udp", "::"), ("listen", "::"), ("bind_udp", "0.0.0.0"), ("listen", "fd00::1:1")]
+    for kind, a in rng.sample(others, 4):
+        script += [["set_cursor", 0, cur], [kind, 0, a, 0], [kind, 0, a, 0]]
+    return {"mode": "net", "cfg": {"hosts": hosts}, "script": script, "flavour": "port-spaces"}
+
+
+def gen_exhaust(rng):
+    """every ephemeral port taken by UDP/IPv4 sockets: TCP and IPv6 binds to port 0 must still succeed
+    (oracle only: 16384 binds are too many for the model evaluation)"""
+    script = [["bind_udp", 0, "0.0.0.0", 0] for _ in range(16384)]
+    script += [["bind_udp", 0, "0.0.0.0", 0], ["listen", 0, "0.0.0.0", 0], ["bind_udp", 0, "::", 0], ["listen", 0, "::", 0], ["listen", 0, "10.0.0.1", 0]]
+    return {"mode": "net", "cfg": {"hosts": [["10.0.0.1"]], "oracle_only": True}, "script": script, "flavour": "exhaust"}
 
 
 def gen_failed_connect(rng):
